@@ -65,6 +65,7 @@ void genIni(Prng& r, Plan& p, int)
 		p.ops.push_back(op("set", {(int64_t)r.range(-1, 3), (int64_t)r.range(-1, 4), (int64_t)(r.next() >> 20)}));
 	p.p["explicit_write"] = r.below(2);
 	p.p["exists"] = r.below(8) != 0;
+	p.p["write_fault"] = r.below(5) == 0;
 }
 
 void runIni(const Plan& p)
@@ -191,6 +192,16 @@ void runIni(const Plan& p)
 			touchedKeys.insert(sec + "/" + key);
 			untouched.erase(sec + "/" + key);
 			nsets++;
+		}
+		if (p.get("write_fault") && nsets > 0)
+		{
+			// a disk fault at an arbitrary moment: the file cannot be opened for this one write attempt (the directory was
+			// briefly unavailable); nothing may be marked as saved, and the next write - the destructor's - must store the values
+			sim::fs::arm(sim::fs::F_OPEN_FAIL, 0, 13);
+			ini.write();
+			if (sim::fs::fired())
+				sim::faultFired("open_fails_during_write");
+			sim::fs::disarm();
 		}
 		if (p.get("explicit_write"))
 			ini.write();
